@@ -20,7 +20,7 @@ RULE = (
     "parses the printed `[Sheet::][Table::]ref`, determines the candidate tables from the document's names only and must find "
     "exactly one reading, identical to the stored target: same table, same coordinates (relative = host + offset), '$' exactly on "
     "the absolute components, range ends not swapped; a printed label must name exactly the stored row/column. The check is "
-    "repeated after a header label is rewritten (cache invalidation). Non-trivial: reference to another table, or a label, or a "
+    "repeated after a header label is rewritten , after a table is renamed and after a sheet is renamed (cache invalidation). Non-trivial: reference to another table, or a label, or a "
     "mixed absolute/relative range; distinct by (configuration, reference)."
 )
 ASSUMPTIONS = [
@@ -301,7 +301,11 @@ def check_config(ctx, case):
             for ref in placed:
                 hs, ht = ref["host_table"]
                 cell = doc.sheets[hs].tables[ht].cell(*ref["host"])
-                sub = {"lane": "config", "config": cfg, "refs": [ref], "phase": phase}
+                # the replay case is the original configuration plus the edits that led to this phase
+                sub = {"lane": "config", "config": config, "refs": [ref], "phase": phase,
+                       "edit": case.get("edit") if phase != "reopened" else None,
+                       "rename": case.get("rename") if phase in ("after_rename", "after_sheet_rename") else None,
+                       "rename_sheet": case.get("rename_sheet") if phase == "after_sheet_rename" else None}
                 ctx.ev()
                 with warnings.catch_warnings():
                     warnings.simplefilter("ignore")
@@ -322,13 +326,15 @@ def check_config(ctx, case):
         read_all(d2, "reopened", config)
         # cache invalidation: rewrite one header label through Table.write and check again
         edit = case.get("edit")
+        cfg_now = config
         if edit:
+            import copy
+
             si, ti, axis, idx, new = edit
             tc = config["sheets"][si]["tables"][ti]
             labels = tc["col_labels" if axis == "col" else "row_labels"]
-            if str(idx) in labels and new != "":
-                import copy
-
+            other = tc["row_labels" if axis == "col" else "col_labels"]
+            if str(idx) in labels and new != "" and new not in other.values():
                 cfg2 = copy.deepcopy(config)
                 t = d2.sheets[si].tables[ti]
                 with warnings.catch_warnings():
@@ -338,10 +344,33 @@ def check_config(ctx, case):
                     else:
                         t.write(idx, tc["hc"] - 1, new)
                 cfg2["sheets"][si]["tables"][ti]["col_labels" if axis == "col" else "row_labels"][str(idx)] = new
-                other = cfg2["sheets"][si]["tables"][ti]["row_labels" if axis == "col" else "col_labels"]
-                if new not in other.values():
-                    read_all(d2, "after_header_edit", cfg2)
-                    ctx.count("header_edits")
+                read_all(d2, "after_header_edit", cfg2)
+                ctx.count("header_edits")
+                cfg_now = cfg2
+        # renaming a table changes which names are unique in the document: printed references must follow
+        ren = case.get("rename")
+        if ren:
+            import copy
+
+            si, ti, new = ren
+            siblings = [t["name"].lower() for k, t in enumerate(cfg_now["sheets"][si]["tables"]) if k != ti]
+            if new.lower() not in siblings and new != cfg_now["sheets"][si]["tables"][ti]["name"]:
+                cfg3 = copy.deepcopy(cfg_now)
+                d2.sheets[si].tables[ti].name = new
+                cfg3["sheets"][si]["tables"][ti]["name"] = new
+                read_all(d2, "after_rename", cfg3)
+                ctx.count("table_renames")
+                cfg_now = cfg3
+        rs_ = case.get("rename_sheet")
+        if rs_:
+            import copy
+
+            si, new = rs_
+            cfg4 = copy.deepcopy(cfg_now)
+            d2.sheets[si].name = new
+            cfg4["sheets"][si]["name"] = new
+            read_all(d2, "after_sheet_rename", cfg4)
+            ctx.count("sheet_renames")
         ctx.count("configurations")
     finally:
         shutil.rmtree(tmp, ignore_errors=True)
@@ -359,7 +388,10 @@ def cases(draw, nrefs):
     if labels:
         idx = int(draw(st.sampled_from(sorted(labels))))
         edit = [si, ti, axis, idx, draw(st.sampled_from(LABELS[:8] + ["renamed", "alpha 1"]))]
-    return {"lane": "config", "config": config, "refs": refs, "edit": edit}
+    rs, rt, _ = draw(st.sampled_from(tabs))
+    rename = [rs, rt, draw(st.sampled_from(TABLE_NAMES + ["Renamed"]))]
+    rename_sheet = [draw(st.integers(0, len(config["sheets"]) - 1)), draw(st.sampled_from(["Totals", "Q1 'draft'", "a-b", "Sheet 9"]))]
+    return {"lane": "config", "config": config, "refs": refs, "edit": edit, "rename": rename, "rename_sheet": rename_sheet}
 
 
 def tasks(tier, seed):
@@ -376,5 +408,5 @@ def run_task(ctx, lane, **kw):
 
 
 def check_case(ctx, case):
-    case = {k: v for k, v in case.items() if k in ("lane", "config", "refs", "edit")}
+    case = {k: v for k, v in case.items() if k in ("lane", "config", "refs", "edit", "rename", "rename_sheet")}
     check_config(ctx, case)
